@@ -133,9 +133,9 @@ def binary(op, a, b):
             return a, 'error:left-most'
         x, ta = to_number(a)
         if isinstance(b, Err):
-            if isinstance(x, Err):
-                return (x, b), 'error:mixed'
-            return b, 'error:right'
+            # the statement: "the left-most error OPERAND is returned unchanged" - text that merely fails to
+            # coerce is not an error operand, so the error operand on the right is the result
+            return b, ('error:right-of-bad-text' if isinstance(x, Err) else 'error:right')
         y, tb = to_number(b)
         if isinstance(x, Err):
             return x, ta
